@@ -83,12 +83,14 @@ def map_viewbox_to_font_space(
 def map_viewbox_to_otsvg_space(
     view_box: Rect, ascender: int, descender: int, width: int, user_transform: Affine2D
 ) -> Affine2D:
+    # the user transform is given in font coordinates (y up); OT-SVG has y down
+    a, b, c, d, e, f = user_transform
     return Affine2D.compose_ltr(
         [
             scale_viewbox_to_font_metrics(view_box, ascender, descender, width),
             # shift things in the [+x,-y] quadrant where OT-SVG expects them
             Affine2D(1, 0, 0, 1, 0, -ascender),
-            user_transform,
+            Affine2D(a, -b, -c, d, e, -f),
         ]
     )
 
